@@ -2,28 +2,35 @@
    Self-contained: nothing here depends on the proofs of other properties, so that a change which
    breaks, say, resynchronisation without introducing a panic does not disturb this file. *)
 From Coq Require Import NArith Bool List String.
-From PK Require Import Base.Outcome Base.Ctl Base.Finite Base.Machine Gen.All Impl Spec.Frame Spec.Event
+From PK Require Import Base.Outcome Base.Ctl Base.Finite Base.Machine Base.Reach Gen.All Impl Spec.Frame Spec.Event
   Syn.Ps2 Syn.Set1 Syn.Set2 Syn.Lay Syn.Preds Syn.Ev Check.Scan Check.Ps2M Check.C07 Check.Lay Check.Ev Check.C08.
 Import ListNotations.
 Local Open Scope N_scope.
 
 (* every byte to either scancode decoder, after any history (so the unimplemented!() arm of Set 1 and
    the three Set 2-only states are unreachable for it) *)
-Lemma inv1 : inv_C07 syn_set1 (ScancodeSet1_mk DecodeState_Start) = true. Proof. vm_compute. reflexivity. Qed.
-Lemma inv2 : inv_C07 syn_set2 (ScancodeSet2_mk DecodeState_Start) = true. Proof. vm_compute. reflexivity. Qed.
+Lemma inv1 : inv_C07 syn_set1 ScancodeSet1_hash (ScancodeSet1_mk DecodeState_Start) = true. Proof. vm_compute. reflexivity. Qed.
+Lemma inv2 : inv_C07 syn_set2 ScancodeSet2_hash (ScancodeSet2_mk DecodeState_Start) = true. Proof. vm_compute. reflexivity. Qed.
 Theorem C08_set1 : forall bs, Forall byte bs ->
   exists s' os, run (scan_machine syn_set1) (ScancodeSet1_mk DecodeState_Start) bs = Ret (s', os).
-Proof. exact (C08_scancodes syn_set1 _ _ inv1). Qed.
+Proof. exact (C08_scancodes syn_set1 _ _ _ inv1). Qed.
 Theorem C08_set2 : forall bs, Forall byte bs ->
   exists s' os, run (scan_machine syn_set2) (ScancodeSet2_mk DecodeState_Start) bs = Ret (s', os).
-Proof. exact (C08_scancodes syn_set2 _ _ inv2). Qed.
+Proof. exact (C08_scancodes syn_set2 _ _ _ inv2). Qed.
 
 (* every bit and clear, in every reachable state of the frame decoder: the counter never exceeds 10, so
    `num_bits += 1` and `<< num_bits` stay in range *)
-Lemma inv_bits : inv_ps2 syn_ps2 (Ps2Decoder_mk 0 0) = true. Proof. vm_compute. reflexivity. Qed.
+Lemma inv_bits : inv_ps2 syn_ps2 Ps2Decoder_hash (Ps2Decoder_mk 0 0) = true. Proof. vm_compute. reflexivity. Qed.
 Theorem C08_bits : forall ops : list bit_op,
   exists s' os, run (ps2_machine syn_ps2) (Ps2Decoder_mk 0 0) ops = Ret (s', os).
-Proof. exact (C08_bitops syn_ps2 _ inv_bits). Qed.
+Proof. exact (C08_bitops syn_ps2 _ _ inv_bits). Qed.
+(* the invariant as an abstract list of states (for Props/C08_kb.v) *)
+Lemma ps2_reach : exists sts : list Ps2Decoder, In (Ps2Decoder_mk 0 0) sts /\
+  forall p op, In p sts -> In op all_ops -> exists p' o, m_step (ps2_machine syn_ps2) p op = Ret (p', o) /\ In p' sts.
+Proof.
+  exact (@kreach_list _ _ (ps2_machine syn_ps2) (ps_eqb syn_ps2) Ps2Decoder_hash all_ops (ps_eqb_ok syn_ps2)
+           (ps2_kstates syn_ps2 Ps2Decoder_hash (Ps2Decoder_mk 0 0)) (Ps2Decoder_mk 0 0) inv_bits).
+Qed.
 
 Lemma words_ok : panicking_words syn_ps2 (Ps2Decoder_mk 0 0) = []. Proof. vm_compute. reflexivity. Qed.
 Theorem C08_word : forall s w, w < 65536 -> ps_add_word syn_ps2 s w <> Panic.
